@@ -232,7 +232,7 @@ fn sigmask(how: isize, set: u64) {
 fn hits() -> u64 {
     unsafe {
         let p = (&raw const HITS) as *const u64;
-        core::ptr::read_volatile(p.add(10)) * 10000 + core::ptr::read_volatile(p.add(12)) * 100 + core::ptr::read_volatile(p.add(14))
+        core::ptr::read_volatile(p.add(2)) * 1000000 + core::ptr::read_volatile(p.add(10)) * 10000 + core::ptr::read_volatile(p.add(12)) * 100 + core::ptr::read_volatile(p.add(14))
     }
 }
 "#;
@@ -348,6 +348,7 @@ pub fn c6(a: i64, b: i64, c: i64, d: i64, e: i64, f: i64) {
     s.l("pub extern \"C\" fn main(_argc: i32, _argv: *const *const u8) -> i32 {", None);
     s.l("    let mut a: u64 = unsafe { core::ptr::read_volatile(&raw const ACC) };", Some("main.init"));
     if signals {
+        s.l("    install(2);", None);
         s.l("    install(10);", Some("main.install"));
         s.l("    install(12);", None);
         s.l("    install(14);", None);
